@@ -205,8 +205,9 @@ def stringIsDatetime (s : Seq) : R Bool :=
 def complexIsFloat (s : Seq) : R Bool :=
   tryB ["ValueError"] (allO (s.map (fun x => match x.cval with | some (_, im) => .ok im.isZero | none => .raises "AttributeError")))
 def floatIsInt (s : Seq) : R Bool := tryB ["ValueError", "TypeError", "OverflowError"] (allO (s.map intEq))
+/-- `datetime_is_date` (as repaired): ValueError / TypeError / AttributeError -> False (pd.NaT has no time of day) -/
 def datetimeIsDate (s : Seq) : R Bool :=
-  match allO (s.map (·.midnight)) with | .ok b => .ok b | .raises c => .error (escape c)
+  tryB ["ValueError", "TypeError", "AttributeError"] (allO (s.map (·.midnight)))
 def parses {α : Type} (names : List String) (f : Elem → Outcome α) (s : Seq) : R Bool :=
   match firstRaise (s.map f) with
   | some c => if caught names c then .ok false else .error (escape c)
